@@ -89,3 +89,26 @@ fn kani_popcount_below_is_rank() {
     }
     assert!((bitmap & ((1 << chunk) - 1)).count_ones() == rank);
 }
+
+// COMPLETE (every pair of keys, every depth): trie order is key order - two keys that agree on all chunks before depth d
+// and whose chunk at d is smaller / larger compare (`<` on [u8; 32], lexicographic) the same way.  This is
+// axiom_chunk_order of the Verus unit `trie`, on which the "iteration in key order" theorem rests.
+#[kani::proof]
+#[kani::unwind(53)]
+fn kani_chunk_order_is_key_order() {
+    let k1: Address = kani::any();
+    let k2: Address = kani::any();
+    let d: usize = kani::any();
+    kani::assume(d < 52);
+    let mut prefix_equal = true;
+    let mut i = 0usize;
+    while i < 52 {
+        if i < d && chunk_at(&k1, i) != chunk_at(&k2, i) {
+            prefix_equal = false;
+        }
+        i += 1;
+    }
+    if prefix_equal && chunk_at(&k1, d) < chunk_at(&k2, d) {
+        assert!(k1 < k2);
+    }
+}
